@@ -1,53 +1,20 @@
 ------------------------------ MODULE C10_Laws ------------------------------
-(* Laws shared by the S, emission and T specifications of C10.                                        *)
-(* Everything is stated on HOL terms in the codec encoding of lib/HolTerms.tla, so that the SAME        *)
-(* operators judge the states of the rearrangement machine (C10_Rearr) and the results of the real code *)
-(* (C10_ConvTrace).                                                                                     *)
-(*   PolyOf(t, T)      the polynomial denoted by an arithmetic term of numeric type T, as a canonical    *)
-(*                     finite map  monomial -> non-zero integer coefficient  (a SET of <<mono, coeff>>,   *)
-(*                     mono a SET of <<atom, exponent>>); anything that is not + * - uminus ^ Suc or a    *)
-(*                     numeral is an opaque ATOM (in particular truncated subtraction on nat)             *)
-(*   MemberSet(t, op)  the set of members of a nested conjunction / disjunction                          *)
-(*   SameTable(a, b)   equal truth tables over the propositional atoms                                   *)
+(* Laws shared by the S and T specifications of C10.                                                    *)
+(* Expressions are ABSTRACT (small tuples); HOL terms in the codec encoding of lib/HolTerms.tla are      *)
+(* mapped to them by FromHolA / FromHolP, so that the SAME operators judge the states of the             *)
+(* rearrangement machine (C10_Rearr) and the results of the real code (C10_ConvTrace).                   *)
+(*   arithmetic (at one numeric type T):                                                                 *)
+(*     <<"v",name>>  <<"n",k>> (k >= 0)  <<"+",a,b>>  <<"*",a,b>>  <<"-",a,b>>  <<"neg",a>>  (ring       *)
+(*     subtraction: int, real only)  <<"^",a,k>>  <<"S",a>> (Suc, nat only)  <<"o",payload>> opaque atom *)
+(*     (everything else; in particular TRUNCATED subtraction on nat: payload <<"tsub",a,b>>)             *)
+(*   propositional:  <<"v",name>> <<"T">> <<"F">> <<"not",a>> <<"and",a,b>> <<"or",a,b>> <<"imp",a,b>>   *)
+(*     <<"iff",a,b>> <<"o",payload>>                                                                     *)
+(*   PolyOf(e)      the polynomial denoted by e as a canonical finite map monomial -> non-zero integer   *)
+(*                  coefficient (a SET of <<mono, coeff>>, mono a SET of <<atom, exponent>>)             *)
+(*   MemberSet(e,c) the set of members of a nested conjunction / disjunction                             *)
+(*   SameTable(a,b) equal truth tables over the propositional atoms                                      *)
 (*   ConvOK(x, conds, r) the conversion contract                                                         *)
 EXTENDS HolTerms, Integers
-
-NatT == <<"tc","nat",<<>>>>   IntT == <<"tc","int",<<>>>>   RealT == <<"tc","real",<<>>>>
-NumTypes == {NatT, IntT, RealT}
-F2(A, B, C) == FunT(A, FunT(B, C))
-PlusC(T) == <<"const","plus",F2(T,T,T)>>        TimesC(T) == <<"const","times",F2(T,T,T)>>
-MinusC(T) == <<"const","minus",F2(T,T,T)>>      UminusC(T) == <<"const","uminus",FunT(T,T)>>
-PowerC(T) == <<"const","power",F2(T,NatT,T)>>   OfNatC(T) == <<"const","of_nat",FunT(NatT,T)>>
-ZeroC(T) == <<"const","zero",T>>                OneC(T) == <<"const","one",T>>
-Bit0C == <<"const","bit0",FunT(NatT,NatT)>>     Bit1C == <<"const","bit1",FunT(NatT,NatT)>>
-SucC == <<"const","Suc",FunT(NatT,NatT)>>
-ConjC == <<"const","conj",F2(BoolT,BoolT,BoolT)>>  DisjC == <<"const","disj",F2(BoolT,BoolT,BoolT)>>
-NegC == <<"const","neg",FunT(BoolT,BoolT)>>     TrueC == <<"const","true",BoolT>>   FalseC == <<"const","false",BoolT>>
-IffC == EqC(BoolT)
-
-Op2(c, a, b) == App(App(c, a), b)
-Op1(c, a) == App(c, a)
-IsOp2(t, c) == t[1] = "comb" /\ t[2][1] = "comb" /\ t[2][2] = c
-IsOp1(t, c) == t[1] = "comb" /\ t[2] = c
-A1(t) == t[2][3]
-A2(t) == t[3]
-Neg(a) == Op1(NegC, a)
-
-\* ------------------------------------------------------------------ numerals (kernel/term.py: Number, Binary)
-RECURSIVE IsBits(_), BitsVal(_), BitsLen(_), Bits(_)
-IsBits(t) == t = ZeroC(NatT) \/ t = OneC(NatT) \/ (t[1] = "comb" /\ (t[2] = Bit0C \/ t[2] = Bit1C) /\ IsBits(t[3]))
-BitsLen(t) == IF t[1] = "comb" THEN 1 + BitsLen(t[3]) ELSE 1
-BitsVal(t) == IF t = ZeroC(NatT) THEN 0 ELSE IF t = OneC(NatT) THEN 1
-              ELSE IF t[2] = Bit0C THEN 2 * BitsVal(t[3]) ELSE 2 * BitsVal(t[3]) + 1
-Bits(n) == IF n = 0 THEN ZeroC(NatT) ELSE IF n = 1 THEN OneC(NatT)
-           ELSE IF n % 2 = 0 THEN Op1(Bit0C, Bits(n \div 2)) ELSE Op1(Bit1C, Bits(n \div 2))
-\* non-negative numeral of type T (zero, one, of_nat bits); values are capped to 20 bits
-IsNum(t, T) == t = ZeroC(T) \/ t = OneC(T) \/ (IsOp1(t, OfNatC(T)) /\ IsBits(t[3]) /\ BitsLen(t[3]) <= 20)
-NumVal(t, T) == IF t = ZeroC(T) THEN 0 ELSE IF t = OneC(T) THEN 1 ELSE BitsVal(t[3])
-\* Number(T, n): negative numerals (T # nat) are uminus applied to the positive numeral
-Num(T, n) == IF n = 0 THEN ZeroC(T) ELSE IF n = 1 THEN OneC(T)
-             ELSE IF n < 0 THEN Op1(UminusC(T), IF n = 0 - 1 THEN OneC(T) ELSE Op1(OfNatC(T), Bits(0 - n)))
-             ELSE Op1(OfNatC(T), Bits(n))
 
 \* ------------------------------------------------------------------ saturating arithmetic (TLC integers are 32 bit)
 Cap == 1000000
@@ -55,19 +22,8 @@ SatAdd(a, b) == IF a + b > Cap THEN Cap ELSE a + b
 SatMul(a, b) == IF a = 0 \/ b = 0 THEN 0 ELSE IF a > Cap \div b THEN Cap ELSE a * b
 RECURSIVE SatPow(_,_)
 SatPow(a, k) == IF k = 0 THEN 1 ELSE SatMul(a, SatPow(a, k - 1))
-\* closed natural-number expressions (exponents): numerals, + * Suc and truncated -; value saturates at Cap
-RECURSIVE ClosedNat(_), NatEval(_)
-ClosedNat(t) == \/ IsNum(t, NatT)
-                \/ ((IsOp2(t, PlusC(NatT)) \/ IsOp2(t, TimesC(NatT)) \/ IsOp2(t, MinusC(NatT))) /\ ClosedNat(A1(t)) /\ ClosedNat(A2(t)))
-                \/ (IsOp1(t, SucC) /\ ClosedNat(t[3]))
-NatEval(t) == IF IsNum(t, NatT) THEN NumVal(t, NatT)
-              ELSE IF IsOp2(t, PlusC(NatT)) THEN SatAdd(NatEval(A1(t)), NatEval(A2(t)))
-              ELSE IF IsOp2(t, TimesC(NatT)) THEN SatMul(NatEval(A1(t)), NatEval(A2(t)))
-              ELSE IF IsOp2(t, MinusC(NatT)) THEN (LET a == NatEval(A1(t)) b == NatEval(A2(t)) IN IF a <= b THEN 0 ELSE a - b)
-              ELSE SatAdd(NatEval(t[3]), 1)
 MaxExp == 6
-IsPow(t, T) == IsOp2(t, PowerC(T)) /\ ClosedNat(A2(t)) /\ NatEval(A2(t)) <= MaxExp
-HasSub(T) == T # NatT
+
 \* ------------------------------------------------------------------ polynomials
 PConst(c) == IF c = 0 THEN {} ELSE { <<{}, c>> }
 PAtom(a) == { << { <<a, 1>> }, 1 >> }
@@ -87,67 +43,119 @@ PMul(p, q) == LET prods == { <<a[1], b[1], a[2] * b[2]>> : a \in p, b \in q }
 RECURSIVE PPow(_,_)
 PPow(p, k) == IF k = 0 THEN PConst(1) ELSE PMul(PPow(p, k - 1), p)
 
-RECURSIVE PolyOf(_,_), Mag(_,_), AtomsOf(_,_), LeafCount(_,_)
-PolyOf(t, T) ==
-  IF IsNum(t, T) THEN PConst(NumVal(t, T))
-  ELSE IF IsOp2(t, PlusC(T)) THEN PAdd(PolyOf(A1(t), T), PolyOf(A2(t), T))
-  ELSE IF IsOp2(t, TimesC(T)) THEN PMul(PolyOf(A1(t), T), PolyOf(A2(t), T))
-  ELSE IF HasSub(T) /\ IsOp2(t, MinusC(T)) THEN PAdd(PolyOf(A1(t), T), PNeg(PolyOf(A2(t), T)))
-  ELSE IF HasSub(T) /\ IsOp1(t, UminusC(T)) THEN PNeg(PolyOf(t[3], T))
-  ELSE IF IsPow(t, T) THEN PPow(PolyOf(A1(t), T), NatEval(A2(t)))
-  ELSE IF T = NatT /\ IsOp1(t, SucC) THEN PAdd(PolyOf(t[3], T), PConst(1))
-  ELSE PAtom(t)
+Bin2(e) == e[1] \in {"+", "*", "-"}
+RECURSIVE PolyOf(_), Mag(_), AtomsOf(_), LeafCount(_), ESize(_)
+PolyOf(e) == CASE e[1] = "n" -> PConst(e[2])
+               [] e[1] = "+" -> PAdd(PolyOf(e[2]), PolyOf(e[3]))
+               [] e[1] = "*" -> PMul(PolyOf(e[2]), PolyOf(e[3]))
+               [] e[1] = "-" -> PAdd(PolyOf(e[2]), PNeg(PolyOf(e[3])))
+               [] e[1] = "neg" -> PNeg(PolyOf(e[2]))
+               [] e[1] = "^" -> PPow(PolyOf(e[2]), e[3])
+               [] e[1] = "S" -> PAdd(PolyOf(e[2]), PConst(1))
+               [] OTHER -> PAtom(e)
 \* an upper bound of the sum of the absolute values of all coefficients met while computing PolyOf (saturating)
-Mag(t, T) ==
-  IF IsNum(t, T) THEN NumVal(t, T)
-  ELSE IF IsOp2(t, PlusC(T)) THEN SatAdd(Mag(A1(t), T), Mag(A2(t), T))
-  ELSE IF IsOp2(t, TimesC(T)) THEN SatMul(Mag(A1(t), T), Mag(A2(t), T))
-  ELSE IF HasSub(T) /\ IsOp2(t, MinusC(T)) THEN SatAdd(Mag(A1(t), T), Mag(A2(t), T))
-  ELSE IF HasSub(T) /\ IsOp1(t, UminusC(T)) THEN Mag(t[3], T)
-  ELSE IF IsPow(t, T) THEN SatPow(Mag(A1(t), T), NatEval(A2(t)))
-  ELSE IF T = NatT /\ IsOp1(t, SucC) THEN SatAdd(Mag(t[3], T), 1)
-  ELSE 1
-AtomsOf(t, T) ==
-  IF IsNum(t, T) THEN {}
-  ELSE IF IsOp2(t, PlusC(T)) \/ IsOp2(t, TimesC(T)) \/ (HasSub(T) /\ IsOp2(t, MinusC(T))) THEN AtomsOf(A1(t), T) \cup AtomsOf(A2(t), T)
-  ELSE IF HasSub(T) /\ IsOp1(t, UminusC(T)) THEN AtomsOf(t[3], T)
-  ELSE IF IsPow(t, T) THEN AtomsOf(A1(t), T)
-  ELSE IF T = NatT /\ IsOp1(t, SucC) THEN AtomsOf(t[3], T)
-  ELSE {t}
-LeafCount(t, T) ==
-  IF IsNum(t, T) THEN 1
-  ELSE IF IsOp2(t, PlusC(T)) \/ IsOp2(t, TimesC(T)) \/ (HasSub(T) /\ IsOp2(t, MinusC(T))) THEN LeafCount(A1(t), T) + LeafCount(A2(t), T)
-  ELSE IF HasSub(T) /\ IsOp1(t, UminusC(T)) THEN LeafCount(t[3], T)
-  ELSE IF IsPow(t, T) THEN LeafCount(A1(t), T) + 1
-  ELSE IF T = NatT /\ IsOp1(t, SucC) THEN LeafCount(t[3], T) + 1
-  ELSE 1
+Mag(e) == CASE e[1] = "n" -> IF e[2] > Cap THEN Cap ELSE e[2]
+            [] e[1] \in {"+", "-"} -> SatAdd(Mag(e[2]), Mag(e[3]))
+            [] e[1] = "*" -> SatMul(Mag(e[2]), Mag(e[3]))
+            [] e[1] = "neg" -> Mag(e[2])
+            [] e[1] = "^" -> IF e[3] > MaxExp THEN Cap ELSE SatPow(Mag(e[2]), e[3])
+            [] e[1] = "S" -> SatAdd(Mag(e[2]), 1)
+            [] OTHER -> 1
+AtomsOf(e) == CASE e[1] = "n" -> {}
+                [] Bin2(e) -> AtomsOf(e[2]) \cup AtomsOf(e[3])
+                [] e[1] \in {"neg", "^", "S"} -> AtomsOf(e[2])
+                [] OTHER -> {e}
+LeafCount(e) == CASE Bin2(e) -> LeafCount(e[2]) + LeafCount(e[3])
+                  [] e[1] = "neg" -> LeafCount(e[2])
+                  [] e[1] \in {"^", "S"} -> LeafCount(e[2]) + 1
+                  [] OTHER -> 1
+ESize(e) == CASE Bin2(e) -> 1 + ESize(e[2]) + ESize(e[3])
+              [] e[1] \in {"neg", "^", "S"} -> 1 + ESize(e[2])
+              [] OTHER -> 1
 \* PolyOf can be evaluated without overflow
-PolyExaminable(t, T) == T \in NumTypes /\ Size(t) <= 600 /\ Mag(t, T) < Cap
-\* all atoms are variables of type T: formal polynomial identity is then EQUIVALENT to equality of the denoted functions
-\* (nat, int, real are infinite integral domains / semirings embedded in one); with opaque atoms only => holds
-VarAtoms(t, T) == \A a \in AtomsOf(t, T) : a[1] = "var" /\ a[3] = T
+PolyExaminable(e) == ESize(e) <= 300 /\ Mag(e) < Cap
+\* all atoms are variables: formal polynomial identity is then EQUIVALENT to equality of the denoted functions
+\* (nat, int, real are infinite); with opaque atoms it is only sufficient
+VarAtoms(e) == \A a \in AtomsOf(e) : a[1] = "v"
 
 \* ------------------------------------------------------------------ propositional structure
-RECURSIVE MemberSet(_,_)
-MemberSet(t, c) == IF IsOp2(t, c) THEN MemberSet(A1(t), c) \cup MemberSet(A2(t), c) ELSE {t}
-IsConn2(t) == IsOp2(t, ConjC) \/ IsOp2(t, DisjC) \/ IsOp2(t, ImpC) \/ IsOp2(t, IffC)
-RECURSIVE PropAtoms(_), PEval(_,_)
-PropAtoms(t) == IF t = TrueC \/ t = FalseC THEN {}
-                ELSE IF IsConn2(t) THEN PropAtoms(A1(t)) \cup PropAtoms(A2(t))
-                ELSE IF IsOp1(t, NegC) THEN PropAtoms(t[3]) ELSE {t}
-PEval(t, v) == IF t = TrueC THEN TRUE ELSE IF t = FalseC THEN FALSE
-               ELSE IF IsOp2(t, ConjC) THEN PEval(A1(t), v) /\ PEval(A2(t), v)
-               ELSE IF IsOp2(t, DisjC) THEN PEval(A1(t), v) \/ PEval(A2(t), v)
-               ELSE IF IsOp2(t, ImpC) THEN PEval(A1(t), v) => PEval(A2(t), v)
-               ELSE IF IsOp2(t, IffC) THEN PEval(A1(t), v) = PEval(A2(t), v)
-               ELSE IF IsOp1(t, NegC) THEN ~PEval(t[3], v) ELSE v[t]
-PropExaminable(a, b) == Size(a) <= 400 /\ Size(b) <= 400 /\ Cardinality(PropAtoms(a) \cup PropAtoms(b)) <= 8
+PBin(e) == e[1] \in {"and", "or", "imp", "iff"}
+RECURSIVE MemberSet(_,_), PropAtoms(_), PEval(_,_), PSize(_), IsNNF(_)
+MemberSet(e, c) == IF e[1] = c THEN MemberSet(e[2], c) \cup MemberSet(e[3], c) ELSE {e}
+PropAtoms(e) == CASE e[1] \in {"T", "F"} -> {} [] PBin(e) -> PropAtoms(e[2]) \cup PropAtoms(e[3])
+                  [] e[1] = "not" -> PropAtoms(e[2]) [] OTHER -> {e}
+PEval(e, v) == CASE e[1] = "T" -> TRUE [] e[1] = "F" -> FALSE
+                 [] e[1] = "and" -> PEval(e[2], v) /\ PEval(e[3], v)
+                 [] e[1] = "or" -> PEval(e[2], v) \/ PEval(e[3], v)
+                 [] e[1] = "imp" -> PEval(e[2], v) => PEval(e[3], v)
+                 [] e[1] = "iff" -> PEval(e[2], v) = PEval(e[3], v)
+                 [] e[1] = "not" -> ~PEval(e[2], v)
+                 [] OTHER -> v[e]
+PSize(e) == CASE PBin(e) -> 1 + PSize(e[2]) + PSize(e[3]) [] e[1] = "not" -> 1 + PSize(e[2]) [] OTHER -> 1
+PropExaminable(a, b) == PSize(a) <= 300 /\ PSize(b) <= 300 /\ Cardinality(PropAtoms(a) \cup PropAtoms(b)) <= 8
 SameTable(a, b) == LET at == PropAtoms(a) \cup PropAtoms(b) IN \A v \in [at -> BOOLEAN] : PEval(a, v) = PEval(b, v)
-BoolVarAtoms(a) == \A x \in PropAtoms(a) : x[1] = "var" /\ x[3] = BoolT
+BoolVarAtoms(a) == \A x \in PropAtoms(a) : x[1] = "v"
 \* negation normal form: negations only on atoms
-RECURSIVE IsNNF(_)
-IsNNF(t) == IF IsOp1(t, NegC) THEN ~(IsConn2(t[3]) \/ IsOp1(t[3], NegC) \/ t[3] = TrueC \/ t[3] = FalseC)
-            ELSE IF IsOp2(t, ConjC) \/ IsOp2(t, DisjC) THEN IsNNF(A1(t)) /\ IsNNF(A2(t)) ELSE TRUE
+IsNNF(e) == CASE e[1] = "not" -> ~(PBin(e[2]) \/ e[2][1] \in {"not", "T", "F"})
+              [] e[1] \in {"and", "or"} -> IsNNF(e[2]) /\ IsNNF(e[3])
+              [] OTHER -> TRUE
+
+\* ------------------------------------------------------------------ HOL terms (codec encoding) -> abstract expressions
+NatT == <<"tc","nat",<<>>>>   IntT == <<"tc","int",<<>>>>   RealT == <<"tc","real",<<>>>>
+NumTypes == {NatT, IntT, RealT}
+F2(A, B, C) == FunT(A, FunT(B, C))
+PlusC(T) == <<"const","plus",F2(T,T,T)>>        TimesC(T) == <<"const","times",F2(T,T,T)>>
+MinusC(T) == <<"const","minus",F2(T,T,T)>>      UminusC(T) == <<"const","uminus",FunT(T,T)>>
+PowerC(T) == <<"const","power",F2(T,NatT,T)>>   OfNatC(T) == <<"const","of_nat",FunT(NatT,T)>>
+ZeroC(T) == <<"const","zero",T>>                OneC(T) == <<"const","one",T>>
+Bit0C == <<"const","bit0",FunT(NatT,NatT)>>     Bit1C == <<"const","bit1",FunT(NatT,NatT)>>
+SucC == <<"const","Suc",FunT(NatT,NatT)>>
+ConjC == <<"const","conj",F2(BoolT,BoolT,BoolT)>>  DisjC == <<"const","disj",F2(BoolT,BoolT,BoolT)>>
+NegC == <<"const","neg",FunT(BoolT,BoolT)>>     TrueC == <<"const","true",BoolT>>   FalseC == <<"const","false",BoolT>>
+IffC == EqC(BoolT)
+IsOp2(t, c) == t[1] = "comb" /\ t[2][1] = "comb" /\ t[2][2] = c
+IsOp1(t, c) == t[1] = "comb" /\ t[2] = c
+A1(t) == t[2][3]
+A2(t) == t[3]
+\* numerals (kernel/term.py: Number, Binary): zero, one, of_nat applied to a bit string (at most 20 bits here)
+RECURSIVE IsBits(_), BitsVal(_), BitsLen(_)
+IsBits(t) == t = ZeroC(NatT) \/ t = OneC(NatT) \/ (t[1] = "comb" /\ (t[2] = Bit0C \/ t[2] = Bit1C) /\ IsBits(t[3]))
+BitsLen(t) == IF t[1] = "comb" THEN 1 + BitsLen(t[3]) ELSE 1
+BitsVal(t) == IF t = ZeroC(NatT) THEN 0 ELSE IF t = OneC(NatT) THEN 1
+              ELSE IF t[2] = Bit0C THEN 2 * BitsVal(t[3]) ELSE 2 * BitsVal(t[3]) + 1
+IsNum(t, T) == t = ZeroC(T) \/ t = OneC(T) \/ (IsOp1(t, OfNatC(T)) /\ IsBits(t[3]) /\ BitsLen(t[3]) <= 20)
+NumVal(t, T) == IF t = ZeroC(T) THEN 0 ELSE IF t = OneC(T) THEN 1 ELSE BitsVal(t[3])
+\* closed natural-number expressions (exponents): numerals, + * Suc and truncated -; the value saturates at Cap
+RECURSIVE ClosedNat(_), NatEval(_)
+ClosedNat(t) == \/ IsNum(t, NatT)
+                \/ ((IsOp2(t, PlusC(NatT)) \/ IsOp2(t, TimesC(NatT)) \/ IsOp2(t, MinusC(NatT))) /\ ClosedNat(A1(t)) /\ ClosedNat(A2(t)))
+                \/ (IsOp1(t, SucC) /\ ClosedNat(t[3]))
+NatEval(t) == IF IsNum(t, NatT) THEN NumVal(t, NatT)
+              ELSE IF IsOp2(t, PlusC(NatT)) THEN SatAdd(NatEval(A1(t)), NatEval(A2(t)))
+              ELSE IF IsOp2(t, TimesC(NatT)) THEN SatMul(NatEval(A1(t)), NatEval(A2(t)))
+              ELSE IF IsOp2(t, MinusC(NatT)) THEN (LET a == NatEval(A1(t)) b == NatEval(A2(t)) IN IF a <= b THEN 0 ELSE a - b)
+              ELSE SatAdd(NatEval(t[3]), 1)
+RECURSIVE FromHolA(_,_), FromHolP(_)
+FromHolA(t, T) ==
+  IF IsNum(t, T) THEN <<"n", NumVal(t, T)>>
+  ELSE IF t[1] = "var" /\ t[3] = T THEN <<"v", t[2]>>
+  ELSE IF IsOp2(t, PlusC(T)) THEN <<"+", FromHolA(A1(t), T), FromHolA(A2(t), T)>>
+  ELSE IF IsOp2(t, TimesC(T)) THEN <<"*", FromHolA(A1(t), T), FromHolA(A2(t), T)>>
+  ELSE IF T # NatT /\ IsOp2(t, MinusC(T)) THEN <<"-", FromHolA(A1(t), T), FromHolA(A2(t), T)>>
+  ELSE IF T = NatT /\ IsOp2(t, MinusC(T)) THEN <<"o", <<"tsub", FromHolA(A1(t), T), FromHolA(A2(t), T)>> >>
+  ELSE IF T # NatT /\ IsOp1(t, UminusC(T)) THEN <<"neg", FromHolA(t[3], T)>>
+  ELSE IF IsOp2(t, PowerC(T)) /\ ClosedNat(A2(t)) /\ NatEval(A2(t)) <= MaxExp THEN <<"^", FromHolA(A1(t), T), NatEval(A2(t))>>
+  ELSE IF T = NatT /\ IsOp1(t, SucC) THEN <<"S", FromHolA(t[3], T)>>
+  ELSE <<"o", <<"hol", t>> >>
+FromHolP(t) ==
+  IF t = TrueC THEN <<"T">> ELSE IF t = FalseC THEN <<"F">>
+  ELSE IF t[1] = "var" /\ t[3] = BoolT THEN <<"v", t[2]>>
+  ELSE IF IsOp1(t, NegC) THEN <<"not", FromHolP(t[3])>>
+  ELSE IF IsOp2(t, ConjC) THEN <<"and", FromHolP(A1(t)), FromHolP(A2(t))>>
+  ELSE IF IsOp2(t, DisjC) THEN <<"or", FromHolP(A1(t)), FromHolP(A2(t))>>
+  ELSE IF IsOp2(t, ImpC) THEN <<"imp", FromHolP(A1(t)), FromHolP(A2(t))>>
+  ELSE IF IsOp2(t, IffC) THEN <<"iff", FromHolP(A1(t)), FromHolP(A2(t))>>
+  ELSE <<"o", <<"hol", t>> >>
 
 \* ------------------------------------------------------------------ the conversion contract
 \* r = [h |-> sequence of hypotheses, c |-> proposition]; conds = sequence of the propositions of the supplied conditions
